@@ -106,21 +106,35 @@ Definition phdr_to_tv (p : phdr) : tv :=
            end).
 
 (* ---- schema, column chunk, row group, file -------------------------------------------------- *)
+(* logicalType is kept as the generic value (a union of mostly empty structs); `logical_summary` reads
+   the union member and, for TIME/TIMESTAMP, the unit *)
 Record selem := { se_type : option Z; se_tlen : option Z; se_rep : option Z; se_name : bytes;
-                  se_nchildren : option Z; se_conv : option Z }.
+                  se_nchildren : option Z; se_conv : option Z; se_logical : option tv }.
 (* statistics: only null_count matters for the structure (min/max are property C04) *)
 Record cmd := { cm_type : Z; cm_encodings : list Z; cm_path : list bytes; cm_codec : Z; cm_nvals : Z;
                 cm_tus : Z; cm_tcs : Z; cm_data_off : Z; cm_index_off : option Z; cm_dict_off : option Z;
                 cm_null_count : option Z }.
 Record cchunk := { cc_path : option bytes; cc_off : Z; cc_meta : option cmd }.
 Record rgroup := { rg_cols : list cchunk; rg_tbs : Z; rg_nrows : Z }.
-Record fmd := { fm_version : Z; fm_schema : list selem; fm_nrows : Z; fm_rgs : list rgroup }.
+Record fmd := { fm_version : Z; fm_schema : list selem; fm_nrows : Z; fm_rgs : list rgroup; fm_created_by : option bytes }.
 
 Definition selem_of_tv (v : tv) : option selem :=
   let? fs := as_struct v in
   let? ty := opt as_int 1 fs in let? tl := opt as_int 2 fs in let? rp := opt as_int 3 fs in
   let? nm := req as_bin 4 fs in let? nc := opt as_int 5 fs in let? cv := opt as_int 6 fs in
-  Some {| se_type := ty; se_tlen := tl; se_rep := rp; se_name := nm; se_nchildren := nc; se_conv := cv |}.
+  Some {| se_type := ty; se_tlen := tl; se_rep := rp; se_name := nm; se_nchildren := nc; se_conv := cv;
+          se_logical := fld 10 fs |}.
+
+(* (union member id, time unit id 1 MILLIS / 2 MICROS / 3 NANOS or 0) *)
+Definition logical_summary (v : tv) : option (N * N) :=
+  match v with
+  | TStruct [(id, TStruct fs)] =>
+    match fld 2 fs with
+    | Some (TStruct [(u, _)]) => Some (id, if (id =? 7)%N || (id =? 8)%N then u else 0%N)
+    | _ => Some (id, 0%N)
+    end
+  | _ => None
+  end.
 
 Definition null_count_of_tv (v : tv) : option (option Z) :=
   let? fs := as_struct v in opt as_int 3 fs.
@@ -150,11 +164,13 @@ Definition fmd_of_tv (v : tv) : option fmd :=
   let? fs := as_struct v in
   let? ve := req as_int 1 fs in let? sc := req (as_list_of selem_of_tv) 2 fs in
   let? nr := req as_int 3 fs in let? rg := req (as_list_of rgroup_of_tv) 4 fs in
-  Some {| fm_version := ve; fm_schema := sc; fm_nrows := nr; fm_rgs := rg |}.
+  let? cb := opt as_bin 6 fs in
+  Some {| fm_version := ve; fm_schema := sc; fm_nrows := nr; fm_rgs := rg; fm_created_by := cb |}.
 
 Definition selem_to_tv (s : selem) : tv :=
   TStruct (optf 1 TI32 (se_type s) ++ optf 2 TI32 (se_tlen s) ++ optf 3 TI32 (se_rep s) ++
-           [(4%N, TBin (se_name s))] ++ optf 5 TI32 (se_nchildren s) ++ optf 6 TI32 (se_conv s)).
+           [(4%N, TBin (se_name s))] ++ optf 5 TI32 (se_nchildren s) ++ optf 6 TI32 (se_conv s) ++
+           optf 10 (fun v => v) (se_logical s)).
 
 Definition cmd_to_tv (c : cmd) : tv :=
   TStruct ([(1%N, TI32 (cm_type c)); (2%N, TList 5 (map TI32 (cm_encodings c)));
@@ -170,5 +186,5 @@ Definition rgroup_to_tv (r : rgroup) : tv :=
   TStruct [(1%N, TList 12 (map cchunk_to_tv (rg_cols r))); (2%N, TI64 (rg_tbs r)); (3%N, TI64 (rg_nrows r))].
 
 Definition fmd_to_tv (f : fmd) : tv :=
-  TStruct [(1%N, TI32 (fm_version f)); (2%N, TList 12 (map selem_to_tv (fm_schema f)));
-           (3%N, TI64 (fm_nrows f)); (4%N, TList 12 (map rgroup_to_tv (fm_rgs f)))].
+  TStruct ([(1%N, TI32 (fm_version f)); (2%N, TList 12 (map selem_to_tv (fm_schema f)));
+            (3%N, TI64 (fm_nrows f)); (4%N, TList 12 (map rgroup_to_tv (fm_rgs f)))] ++ optf 6 TBin (fm_created_by f)).
